@@ -54,8 +54,26 @@ for (lo, hi) in ((1, 8), (9, 16), (17, 32), (33, 48)):
                 what='H style, CBR code 3, count in %d..%d, pad=%d, self_delimited=%d; all loops under contract, len unbounded' % (lo, hi, pad, sd)))
 
 # ---- class B: acceptance IFF RFC 6716 (independent transcription in spec/rfc6716_framing.h), bounded len ----
-for _code in range(4):
-    GROUPS.append(dict(name='iff_rfc_code%d' % _code, cls='B', tu='C06_iff_rfc.c', entry='h_iff_rfc', dfcc=False, unwind=10, canary='real',
-        defines=['-DVERIF_LEN_MAX=8', '-DVERIF_IFF_CASE(d,len,sd)=(((d)[0]&3)==%d)' % _code], expect_canaries=2, timeout=900,
-        functions=['opus_packet_parse_impl', 'parse_size', 'opus_packet_get_samples_per_frame'], bounds='len <= 8 bytes, all bytes symbolic, both framings',
+_IFF = dict(cls='B', tu='C06_iff_rfc.c', entry='h_iff_rfc', dfcc=False, canary='real', expect_canaries=2,
+            functions=['opus_packet_parse_impl', 'parse_size', 'opus_packet_get_samples_per_frame'])
+for _code in range(3):
+    GROUPS.append(dict(_IFF, name='iff_rfc_code%d' % _code, unwind=10, timeout=900,
+        defines=['-DVERIF_LEN_MAX=8', '-DVERIF_IFF_CASE(d,len,sd)=(((d)[0]&3)==%d)' % _code], bounds='len <= 8 bytes, all bytes symbolic, both framings',
         what='parser accepts IFF the RFC transcription accepts, identical frames/padding/consumed length; TOC code %d' % _code))
+GROUPS.append(dict(_IFF, name='iff_rfc_code3_n6', unwind=10, timeout=1200,
+    defines=['-DVERIF_LEN_MAX=8', '-DVERIF_IFF_CASE(d,len,sd)=(((d)[0]&3)==3 && (len<2 || ((d)[1]&0x3F)<=6))'],
+    bounds='len <= 8 bytes, frame count <= 6, all bytes symbolic, both framings, CBR/VBR/padding',
+    what='parser accepts IFF the RFC transcription accepts; TOC code 3 with at most 6 frames'))
+GROUPS.append(dict(_IFF, name='iff_rfc_code3_full', tier='thorough', unwind=50, timeout=3600, mem_gb=24,
+    defines=['-DVERIF_LEN_MAX=10', '-DVERIF_IFF_CASE(d,len,sd)=(((d)[0]&3)==3)'],
+    bounds='len <= 10 bytes, any frame count (<= 48, zero-length frames), both framings',
+    what='parser accepts IFF the RFC transcription accepts; TOC code 3, all counts'))
+for _code in range(3):
+    GROUPS.append(dict(_IFF, name='iff_rfc_code%d_len20' % _code, tier='thorough', unwind=22, timeout=3600,
+        defines=['-DVERIF_LEN_MAX=20', '-DVERIF_IFF_CASE(d,len,sd)=(((d)[0]&3)==%d)' % _code], bounds='len <= 20 bytes',
+        what='as iff_rfc_code%d with len <= 20' % _code))
+
+GROUPS.append(dict(name='parse_pad_n1', cls='P', tu='C06_parse_h.c', entry='h_parse_h', canary='real', unwind=3, timeout=900, expect_canaries=2,
+    functions=['opus_packet_parse_impl'],
+    defines=['-DVERIF_PARSE_CASE(data,len,sd)=(len>=2 && ((data)[0]&3)==3 && ((data)[1]&0x40)!=0 && ((data)[1]&0x3F)<=2)', '-DVERIF_PARSE_LC_PAD'],
+    what='padding chain (do-while under loop contract, unbounded len) followed by at most 2 frames, CBR or VBR, both framings'))
